@@ -551,6 +551,7 @@ type pieceWriter struct {
 
 func (p pieceWriter) Write(b []byte) (int, error) {
 	total := 0
+	var scratch []byte
 	for piece := 0; len(b) > 0; piece++ {
 		n := p.k
 		if n > len(b) {
@@ -558,10 +559,19 @@ func (p pieceWriter) Write(b []byte) (int, error) {
 		}
 		var m int
 		var err error
-		if piece%2 == 1 {
-			// every other piece the way a text-producing encoder hands bytes over: io.WriteString (which uses the
+		if piece%3 == 1 {
+			// every third piece the way a text-producing encoder hands bytes over: io.WriteString (which uses the
 			// destination's WriteString method when it has one)
 			m, err = io.WriteString(p.w, string(b[:n]))
+		} else if piece%3 == 2 {
+			// ... and every third the way a streaming encoder does: io.CopyBuffer from a reader that has no WriteTo (which uses
+			// the destination's ReadFrom method when it has one)
+			var m64 int64
+			if scratch == nil {
+				scratch = make([]byte, 512)
+			}
+			m64, err = io.CopyBuffer(p.w, struct{ io.Reader }{bytes.NewReader(b[:n])}, scratch)
+			m = int(m64)
 		} else {
 			m, err = p.w.Write(b[:n])
 		}
